@@ -94,6 +94,19 @@ def _child_job(job):
     kind = job["kind"]
     if kind == "history":
         return _history_child(job["spec"])
+    if kind == "seq":
+        # a sequence of public calc_field requests in ONE interpreter (the Fortran solver keeps COMMON / SAVE state)
+        from holopy.scattering import calc_field
+        from holopy.core.metadata import detector_points
+        out = []
+        for i in job["order"]:
+            q = job["requests"][i]
+            p = np.array(q["points"], dtype=float)
+            det = detector_points(x=p[:, 0], y=p[:, 1], z=p[:, 2])
+            f = calc_field(det, _mk_scatterer(q["scat"]), medium_index=q["nmed"], illum_wavelen=q["wavelen"],
+                           illum_polarization=(1, 0), theory=_theory("tmatrix"))
+            out.append(_carr(np.asarray(f.transpose("point", "vector").values)))
+        return dict(fields=out)
     if kind == "parse":
         from holopy.scattering import Tmatrix
         s = _mk_scatterer(job["scat"])
@@ -926,6 +939,94 @@ def stage_history(ctx):
                           "(%d points vs 6 of them alone: %.3g relative)" % (r["npoints"], r["batch"]), meta)
 
 
+def stage_siblings(ctx):
+    """history independence on one-factor siblings: requests that differ from a base request in exactly ONE input
+    (wavelength, medium index, medium index with the wavelength in the medium kept, real index, imaginary index, size, aspect
+    ratio, shape kind, orientation), run back to back in both orders inside one interpreter, against the same request alone in
+    a fresh interpreter.  A solver that keeps the T-matrix of the previous particle and compares an incomplete key fails here."""
+    import copy as _copy
+    rng = ctx.subrng("siblings")
+    for fam in range(ctx.n(2, 6)):
+        kind = ["spheroid", "cylinder", "sphere"][fam % 3]
+        n = [dy(rng, 1.45, 1.65, 6), 0.0 if fam % 2 == 0 else 0.03125]
+        rot = [0.0, dy(rng, 0.2, 1.4, 5), dy(rng, 0.2, 3.0, 5)]
+        c = [dy(rng, -0.5, 0.5, 4), dy(rng, -0.5, 0.5, 4), dy(rng, 6.0, 9.0, 3)]
+        if kind == "spheroid":
+            sc = dict(kind=kind, n=n, r=[dy(rng, 0.25, 0.45, 5), dy(rng, 0.5, 0.7, 5)], rotation=rot, center=c)
+        elif kind == "cylinder":
+            sc = dict(kind=kind, n=n, d=dy(rng, 0.4, 0.7, 5), h=dy(rng, 0.6, 1.0, 5), rotation=rot, center=c)
+        else:
+            sc = dict(kind=kind, n=n, r=dy(rng, 0.3, 0.6, 5), center=c)
+        pts = [[rng.uniform(-3, 3), rng.uniform(-3, 3), 0.0] for _ in range(4)]
+        base = dict(scat=sc, nmed=1.25, wavelen=0.625, points=pts)
+        reqs, names = [base], ["base"]
+
+        def sib(name, **kw):
+            q = _copy.deepcopy(base)
+            for k_, v in kw.items():
+                if k_ in ("nmed", "wavelen"):
+                    q[k_] = v
+                else:
+                    q["scat"][k_] = v
+            reqs.append(q)
+            names.append(name)
+        sib("wavelength", wavelen=0.75)
+        sib("medium-index", nmed=1.5)
+        sib("medium-index-at-fixed-wavelength-in-medium", nmed=1.5, wavelen=0.75)
+        sib("real-index", n=[n[0] + 0.0625, n[1]])
+        sib("imaginary-index", n=[n[0], n[1] + 0.0625])
+        sib("imaginary-index-2", n=[n[0], n[1] + 0.125])
+        if kind == "spheroid":
+            sib("size", r=[sc["r"][0] * 1.25, sc["r"][1] * 1.25])
+            sib("aspect", r=[sc["r"][0], sc["r"][1] * 1.25])
+            sib("orientation", rotation=[0.0, rot[1] + 0.25, rot[2]])
+        elif kind == "cylinder":
+            sib("size", d=sc["d"] * 1.25, h=sc["h"] * 1.25)
+            sib("aspect", h=sc["h"] * 1.25)
+            sib("orientation", rotation=[0.0, rot[1] + 0.25, rot[2]])
+        else:
+            sib("size", r=sc["r"] * 1.25)
+        m = len(reqs)
+        order = []
+        for i in range(1, m):
+            order += [0, i, 0]
+        pairs = [(i, j) for i in range(1, m) for j in range(1, m) if i != j]
+        rng.shuffle(pairs)
+        for i, j in pairs[:ctx.n(10, 40)]:
+            order += [i, j]
+        jobs = [dict(kind="seq", requests=reqs, order=order)]
+        seq = run_jobs("sibseq%d" % fam, jobs, nproc=1, timeout=ctx.n(600, 1500))[0]
+        refs = run_jobs("sibref%d" % fam, [dict(kind="seq", requests=reqs, order=[i]) for i in range(m)], nproc=m,
+                        timeout=ctx.n(600, 1500))       # one fresh interpreter per reference request
+        if outcome(seq) == "died":
+            ctx.violation("stop:siblings", "the interpreter ended during a sequence of T-matrix calculations on sibling requests",
+                          dict(kind="siblings", requests=reqs, order=order, result={k: v for k, v in seq.items() if k != "ok"}))
+            continue
+        if outcome(seq) != "returned" or any(outcome(r) != "returned" for r in refs):
+            ctx.count("siblings:not-returned")
+            bad = [outcome(r) for r in [seq] + refs if outcome(r) != "returned"]
+            ctx.violation("siblings:" + bad[0].split(":")[0], "a T-matrix calculation on an ordinary particle did not return: %s" % bad[0],
+                          dict(kind="siblings", requests=reqs, order=order, outcomes=bad), nofail=True)
+            continue
+        for step, (i, val) in enumerate(zip(order, seq["ok"]["fields"])):
+            ctx.explored += 1
+            ctx.count("siblings:step:" + names[i])
+            ctx.nontriv(("siblings", kind, names[i], names[order[step - 1]] if step else "-"))
+            d = rel_diff(val, refs[i]["ok"]["fields"][0])
+            if d > 1e-9:
+                prev = names[order[step - 1]] if step else "-"
+                # decisive: the same request alone in its own fresh interpreter
+                alone = run_jobs("sibalone", [dict(kind="seq", requests=reqs, order=[i])], nproc=1)[0]
+                d2 = rel_diff(val, alone["ok"]["fields"][0]) if outcome(alone) == "returned" else d
+                if d2 > 1e-9:
+                    ctx.violation("history:siblings:" + (names[i] if names[i] != "base" else prev),
+                                  "T-matrix field of a %s computed right after the same particle with another %s differs from the "
+                                  "same request alone in a fresh interpreter by %.3g (relative)" % (
+                                      kind, prev if names[i] == "base" else names[i], d2),
+                                  dict(kind="siblings", requests=reqs, order=order, step=step, request=i, names=names, rel_diff=d2))
+                    break
+
+
 def stage_survive(ctx):
     """S: ANY real Euler angles, large sizes, extreme aspect ratios, odd detector angles: the call
     returns finite values or raises a Python exception; the interpreter never dies"""
@@ -1069,6 +1170,7 @@ def run(ctx):
     guarded(ctx, "sphere", stage_sphere, ctx)
     guarded(ctx, "symmetry", stage_symmetry, ctx)
     guarded(ctx, "history", stage_history, ctx)
+    guarded(ctx, "siblings", stage_siblings, ctx)
     guarded(ctx, "survive", stage_survive, ctx)
 
 
@@ -1092,9 +1194,24 @@ def replay(ctx, data):
         print("replay: outcome =", outcome(r), r.get("msg", ""))
         if outcome(r) == "died":
             ctx.violation(data["key"], data["what"], d)
-    elif kind == "explore" and d.get("what") in ("field-vs-mie", "smatrix-vs-mie", "lens-vs-mie"):
+    elif kind == "siblings":
+        i = d["request"]
+        seq = run_jobs("replayseq", [dict(kind="seq", requests=d["requests"], order=d["order"][:d["step"] + 1])], nproc=1)[0]
+        alone = run_jobs("replayalone", [dict(kind="seq", requests=d["requests"], order=[i])], nproc=1)[0]
+        ctx.explored += 1
+        if outcome(seq) != "returned" or outcome(alone) != "returned":
+            print("replay: outcomes", outcome(seq), outcome(alone))
+            ctx.violation(data["key"], data["what"], d)
+        else:
+            dd = rel_diff(seq["ok"]["fields"][-1], alone["ok"]["fields"][0])
+            print("replay: request %d (%s) after the recorded sequence vs alone: relative difference %.3g" % (i, d["names"][i], dd))
+            if dd > 1e-9:
+                ctx.violation(data["key"], data["what"], d)
+    elif kind == "explore" and d.get("what", "").split(":")[0] in ("field-vs-mie", "smatrix-vs-mie", "lens-vs-mie"):
+        d = dict(d, what=d["what"].split(":")[0])
         if d["what"] == "smatrix-vs-mie":
-            job = dict(kind="smat", scat=d["scat"], theta=d["theta"], phi=d["phi"], theories=["tmatrix", "mie"], nmed=NMED, wavelen=WAVELEN)
+            job = dict(kind="smat", scat=d["scat"], theta=d["theta"], phi=d["phi"], theories=["tmatrix", "mie"],
+                       nmed=d.get("nmed", NMED), wavelen=d.get("wavelen", WAVELEN))
         else:
             ths = ["lens:0.8:tmatrix", "lens:0.8:mie"] if d["what"] == "lens-vs-mie" else ["tmatrix", "mie"]
             job = dict(kind="field", scat=d["scat"], points=d["points"], theories=ths, nmed=NMED, wavelen=WAVELEN)
